@@ -188,6 +188,12 @@ func (a *arrayObject) sortLen() int {
 }
 
 func (a *arrayObject) sortGet(i int) Value {
+	if i >= len(a.values) {
+		// the comparator (or a toString called by the default comparison) has shrunk the array while
+		// it is being sorted in place; the resulting order is implementation-defined, but the host
+		// must not crash
+		return nil
+	}
 	v := a.values[i]
 	if p, ok := v.(*valueProperty); ok {
 		v = p.get(a.val)
@@ -196,6 +202,9 @@ func (a *arrayObject) sortGet(i int) Value {
 }
 
 func (a *arrayObject) swap(i int, j int) {
+	if i >= len(a.values) || j >= len(a.values) {
+		return
+	}
 	a.values[i], a.values[j] = a.values[j], a.values[i]
 }
 
